@@ -55,13 +55,12 @@ Definition ConfidentialP2Wsh : N := Z.to_N g_ConfidentialP2Wsh.
 Definition P2TR : N := Z.to_N g_P2TR.
 Definition ConfidentialP2TR : N := Z.to_N g_ConfidentialP2TR.
 
-(* strings.HasPrefix s p *)
-Fixpoint has_prefix (s p : bytes) : bool :=
-  match p, s with
-  | [], _ => true
-  | x :: p', y :: s' => beqb x y && has_prefix s' p'
-  | _ :: _, [] => false
-  end.
+(* segwitPrefix: what precedes the LAST '1' ("" when there is none); a network is recognised by the
+   whole human-readable part (fix 233bf85), compared case-sensitively *)
+Definition segwit_prefix (s : bytes) : bytes :=
+  match last_index sep s with None => [] | Some i => firstn i s end.
+(* segwitPrefix(address) == p *)
+Definition is_hrp (s p : bytes) : bool := bytes_eqb (segwit_prefix s) p.
 
 Definition lenb (l : bytes) (n : nat) : bool := Nat.eqb (length l) n.
 
@@ -215,7 +214,7 @@ Definition to_blech32 (prefix : bytes) (v : byte) (key program : bytes) : res by
 
 (* ---------- NetworkForAddress ---------- *)
 Definition net_by_hrp (s : bytes) : option net :=
-  find (fun n => has_prefix s (n_bech32 n) || has_prefix s (n_blech32 n)) nets.
+  find (fun n => is_hrp s (n_bech32 n) || is_hrp s (n_blech32 n)) nets.
 Definition net_by_version (p : byte) : option net :=
   find (fun n => beqb p (n_conf n) || beqb p (n_pkh n) || beqb p (n_sh n)) nets.
 
@@ -269,8 +268,8 @@ Definition decode_type (s : bytes) : res N :=
   match network_for_address s with
   | Err => Err | Panic => Panic
   | Ok n =>
-      if has_prefix s (n_blech32 n) then decode_blech32 s
-      else if has_prefix s (n_bech32 n) then decode_bech32 s
+      if is_hrp s (n_blech32 n) then decode_blech32 s
+      else if is_hrp s (n_bech32 n) then decode_bech32 s
       else decode_base58 s n
   end.
 
@@ -346,7 +345,7 @@ Definition to_confidential (addr key : bytes) : res bytes :=
   match network_for_address addr with
   | Err => Err | Panic => Panic
   | Ok n =>
-      if has_prefix addr (n_bech32 n) then
+      if is_hrp addr (n_bech32 n) then
         match from_bech32 addr with
         | Ok (_, v, p) => to_blech32 (n_blech32 n) v key p
         | Err => Err | Panic => Panic
